@@ -73,6 +73,8 @@ void ezc3d::c3d::print() const
 void ezc3d::c3d::write(const std::string& filePath) const
 {
     std::fstream f(filePath, std::ios::out | std::ios::binary);
+    if (!f.is_open())
+        throw std::ios_base::failure("Could not open the c3d file to write");
 
     // Write the header
     this->header().write(f);
@@ -92,6 +94,10 @@ void ezc3d::c3d::write(const std::string& filePath) const
     this->data().write(f);
 
     f.close();
+
+    // Any write, seek or flush that failed has left the stream in a failed state
+    if (f.fail())
+        throw std::ios_base::failure("Could not write the c3d file completely");
 }
 
 void ezc3d::c3d::readFile(unsigned int nByteToRead, char * c, int nByteFromPrevious,
